@@ -106,34 +106,38 @@ func streamAuthInterceptor(auth Authenticate, access Access) grpc.StreamServerIn
 		//current GripQL schema does not support bi-directional streaming
 		//mainly because it can't be offered via HTTP based interface
 		if info.IsServerStream {
-			//ssWrapper := ServerStreamWrapper{ss}
-
-			switch info.FullMethod {
-			case "/gripql.Query/Traversal":
-				w, err := NewStreamOutWrapper[gripql.GraphQuery](ss)
-				if err != nil {
-					return status.Error(codes.Unknown, "Request error")
-				}
-				err = access.Enforce(user, w.Request.Graph, Query)
-				if err != nil {
-					return status.Error(codes.PermissionDenied, "PermissionDenied")
-				}
-				return handler(srv, w)
-			case "/gripql.Job/ListJobs":
-				//TODO: filter list of jobs
-				return handler(srv, ss)
-			case "/gripql.Job/ResumeJob":
-				//TODO: filter list of jobs
-				return handler(srv, ss)
-			case "/gripql.Job/ViewJob":
-				//TODO: filter list of jobs
-				return handler(srv, ss)
-			case "/gripql.Job/SearchJobs":
-				//TODO: filter list of jobs
-				return handler(srv, ss)
+			//every output stream is checked against the access policy
+			//before the handler runs, the same way unary calls are
+			op, ok := MethodMap[info.FullMethod]
+			if !ok {
+				return status.Error(codes.Unknown, "Unknown method")
 			}
-			log.Errorf("Unknown streaming output: %#v", info)
-			return handler(srv, ss)
+			var graph string
+			var stream grpc.ServerStream
+			var err error
+			switch info.FullMethod {
+			case "/gripql.Query/Traversal", "/gripql.Job/SearchJobs":
+				graph, stream, err = requestGraph[gripql.GraphQuery](ss)
+			case "/gripql.Job/ListJobs":
+				graph, stream, err = requestGraph[gripql.GraphID](ss)
+			case "/gripql.Job/ViewJob":
+				graph, stream, err = requestGraph[gripql.QueryJob](ss)
+			case "/gripql.Job/ResumeJob":
+				graph, stream, err = requestGraph[gripql.ExtendQuery](ss)
+			case "/gripql.Query/ListTables":
+				graph, stream = "*", ss //not tied to a graph
+			default:
+				log.Errorf("Unknown streaming output: %#v", info)
+				return status.Error(codes.Unknown, "Unknown method")
+			}
+			if err != nil {
+				return status.Error(codes.Unknown, "Request error")
+			}
+			err = access.Enforce(user, graph, op)
+			if err != nil {
+				return status.Error(codes.PermissionDenied, "PermissionDenied")
+			}
+			return handler(srv, stream)
 		} else if info.IsClientStream {
 			if info.FullMethod == "/gripql.Edit/BulkAdd" {
 				//This checks permission on a per entity basis
@@ -149,6 +153,19 @@ func streamAuthInterceptor(auth Authenticate, access Access) grpc.StreamServerIn
 
 		return status.Error(codes.Unknown, "Unknown method")
 	}
+}
+
+// requestGraph reads the request message of an output stream and returns the
+// graph it names together with a stream that replays the request to the handler
+func requestGraph[X any, P interface {
+	*X
+	GetGraph() string
+}](ss grpc.ServerStream) (string, grpc.ServerStream, error) {
+	w, err := NewStreamOutWrapper[X](ss)
+	if err != nil {
+		return "", nil, err
+	}
+	return P(&w.Request).GetGraph(), w, nil
 }
 
 func getUnaryRequestGraph(req interface{}, info *grpc.UnaryServerInfo) (string, error) {
